@@ -449,6 +449,7 @@ func (e *Engine) asTerm(st *State, v Val) string {
 		if len(v.Binds) > 0 {
 			// closure identity is opaque
 			t := e.S.Fresh("closure", "Int")
+			e.S.AddAxiom([]string{t}, fmt.Sprintf("(> %s 0)", t)) // a function value made from a closure is never nil
 			e.closureRev[t] = v
 			return t
 		}
@@ -456,6 +457,7 @@ func (e *Engine) asTerm(st *State, v Val) string {
 			return t
 		}
 		t := e.S.Fresh("fn", "Int")
+		e.S.AddAxiom([]string{t}, fmt.Sprintf("(> %s 0)", t)) // nor is one made from a declared function
 		e.interiorPtr[key] = t
 		e.closureRev[t] = v
 		return t
